@@ -168,6 +168,23 @@ def boundary_scenario(rng, sid, cap):
     return '\n'.join([head] + ['T ' + ';'.join(p) for p in progs] + ['GO'])
 
 
+def bigcap_scenario(rng, sid, cap):
+    """a full house at a large capacity (word boundaries of packed reservation flags, 32 / 64): `cap` workers take every
+    ID and keep it, a few of them exit, and late workers start while the others are still running"""
+    nleave = rng.choice([1, 3, 8])
+    leavers = set(rng.sample(range(cap), nleave))
+    progs = []
+    for t in range(cap):
+        ops = [f'probe {rng.randrange(cap)}', 'gid', 'hbget']
+        ops.append(f'hold {6 if t in leavers else 400}')
+        ops.append('gid')
+        progs.append(ops)
+    for t in range(nleave + 1):
+        progs.append([f'probe {rng.randrange(cap)}', 'hold 40', 'gid', 'hbget', 'hold 5', 'gid'])
+    head = f'SCEN {sid} comp=thread nvars=2 policy=0 seed={rng.randrange(1, 1 << 30)} max_steps=200000'
+    return '\n'.join([head] + ['T ' + ';'.join(p) for p in progs] + ['GO'])
+
+
 def stall_scenario(rng, sid, cap):
     """an explicit schedule prefix stalls worker A after `a` of its quanta - i.e. between any two atomic steps of
     GetProtectedEpochs / CreateEpochGuard (ID claim, expired() test, heartbeat assignment, load of the global epoch,
